@@ -34,6 +34,11 @@ RULE = ("Part 'result': one Result type (SUM int / dyadic / general float, "
         "none/some/all, value accumulation optionally differing between the "
         "sets; "
         "non-trivial = partial overlap.  distinct = SHA-1 of the case.")
+RULE += (" Added after the white-box review: "
+         "result names may be added to the sets in different orders, "
+         "observations may be numpy scalars, appended sets may be "
+         "appended again ")
+
 LEVEL_TEXT = ("Generated-history search (Hypothesis, seeded, sharded) over "
               "update sequences, partitions, merge association orders, result "
               "sets and overlapping parameter grids against an exact "
